@@ -713,6 +713,19 @@ def rule_intarg(c: Ctx) -> RuleResult:
     return r
 
 
+def _flag_stable(c: Ctx, f: Func, test: ast.AST, def_stmt: ast.AST | None, use_at: ast.AST) -> bool:
+    """The names the selecting test mentions have one definition each in the function (so the test has the same value where the
+    pattern was selected and where the match is used)."""
+    for x in ast.walk(test):
+        if isinstance(x, ast.Name):
+            stores = [n for n in own_nodes(f.node) if isinstance(n, ast.Name) and n.id == x.id and isinstance(n.ctx, ast.Store)]
+            if len(stores) > 1:
+                return False
+        elif isinstance(x, (ast.Call, ast.Attribute, ast.Subscript)):
+            return False
+    return True
+
+
 def _int_source(c: Ctx, f: Func, e: ast.AST, at: ast.AST, rd: Reaching, regexes: dict, depth: int = 0, use_at: ast.AST | None = None) -> str:
     use_at = use_at or at          # where the value is consumed (conditions known there select among alternatives)
     if depth > 5:
@@ -729,15 +742,21 @@ def _int_source(c: Ctx, f: Func, e: ast.AST, at: ast.AST, rd: Reaching, regexes:
         if isinstance(m, ast.Name):
             for d in rd.at_ast(at, m.id):
                 v = d.value
-                if v is None or not (isinstance(v, ast.Call) and isinstance(v.func, ast.Attribute) and isinstance(v.func.value, ast.Name)):
+                if v is None or not (isinstance(v, ast.Call) and isinstance(v.func, ast.Attribute) and isinstance(v.func.value, (ast.Name, ast.IfExp))):
                     return f"!group of `{m.id}`, which is not the result of a module-level compiled pattern"
-                cands = [v.func.value.id]
+                recv_ = v.func.value
+                cands = [recv_.id] if isinstance(recv_, ast.Name) else ["?"]
                 if regexes.get((f.module.rel, cands[0])) is None:
-                    # pattern = RE_A if flag else RE_B: the alternative selected by what is known about the flag where int() runs
-                    pds = [x for x in rd.at_ast(d.stmt, cands[0])] if d.stmt is not None else []
-                    if len(pds) == 1 and pds[0].kind == "assign" and isinstance(pds[0].value, ast.IfExp) \
-                            and isinstance(pds[0].value.body, ast.Name) and isinstance(pds[0].value.orelse, ast.Name):
-                        ie = pds[0].value
+                    # pattern = RE_A if flag else RE_B (or the conditional used directly as the receiver): the alternative selected
+                    # by what is known about the flag where int() runs
+                    ie_ = recv_ if isinstance(recv_, ast.IfExp) else None
+                    if ie_ is None:
+                        pds = [x for x in rd.at_ast(d.stmt, cands[0])] if d.stmt is not None else []
+                        if len(pds) == 1 and pds[0].kind == "assign" and isinstance(pds[0].value, ast.IfExp):
+                            ie_ = pds[0].value
+                    if ie_ is not None and isinstance(ie_.body, ast.Name) and isinstance(ie_.orelse, ast.Name) \
+                            and _flag_stable(c, f, ie_.test, d.stmt, use_at):
+                        ie = ie_
                         fcfg, fres = c.facts(f)
                         known = None
                         for nd in fcfg.owner(use_at):
